@@ -18,6 +18,8 @@ From AP.Model Require Import Prelude Vocab Bytes Pred Layout Views Conv NilMatri
 From AP.Model Require Import IriEq Recip Flatten Clean CleanGen Equal JsonTables JsonEnc JsonCodec NilEmbed.
 From AP.Gen Require Import Conv Helpers JsonW.
 From AP.Proofs Require Import RecipP FlattenP FlattenIdemP CleanP EqualP NilEncP NilWalkP NilEqualP.
+From AP.Model Require Import FlattenTab FlattenGen NilFlatten.
+From AP.Proofs Require Import FlattenTabP NilFlattenP.
 
 Definition nils : list item := INil :: map ITNil all_kinds.
 
@@ -210,6 +212,72 @@ Proof.
   intro eqv. apply flatten_nil_like. exact Hn.
 Qed.
 
+(* ---- Flatten commutes with the erasure of nil-like items (builder b57; Proofs/NilFlattenP.v) ----
+   scrub x (Model/NilEmbed.v) is the twin of the harness: every typed nil pointer inside x, at any depth, replaced by
+   the untyped nil, and a property that then holds the untyped nil dropped; nilify x keeps such properties.
+   "Flattening the twin gives the twin of the flattening" - not only up to a second erasure:
+       flatten (scrub x) = scrub (flatten x)
+   for every id comparison, every value in which no struct binds a field twice (nodupf: true of every rendering of
+   a Go value, evaluated on every deep value of the harness), and - at the property level - for EVERY table of
+   Flatten<X>Properties the translator can emit (whatever assignments x.F = FlattenToIRI / Flatten /
+   FlattenItemCollection (x.F) and delegations the functions consist of), hence for the table of this run. *)
+(* Flatten, FlattenItemCollection, FlattenToIRI - the erasure that keeps properties: no hypothesis at all *)
+Theorem C20_flatten_commutes_untyping : forall eqv x, flatten eqv (nilify x) = omap nilify (flatten eqv x).
+Proof. exact flatten_nilify. Qed.
+Theorem C20_flatten_items_commutes_untyping : forall eqv c,
+  flatten_items eqv (option_map (map nilify) c) = omap (option_map (map nilify)) (flatten_items eqv c).
+Proof. exact flatten_items_nilify. Qed.
+(* ... and the twin *)
+Theorem C20_flatten_commutes : forall eqv x, nodupf x = true -> flatten eqv (scrub x) = omap scrub (flatten eqv x).
+Proof. exact flatten_scrub. Qed.
+Theorem C20_flatten_items_commutes : forall eqv c,
+  match c with Some l => forallb nodupf l = true | None => True end ->
+  flatten_items eqv (option_map (map scrub) c) = omap (option_map (map scrub)) (flatten_items eqv c).
+Proof. exact flatten_items_scrub. Qed.
+Theorem C20_flatten_to_iri_commutes : forall m, nodupf m = true -> flat_item (scrub m) = scrub (flat_item m).
+Proof. exact flatten_to_iri_scrub. Qed.
+(* the form "flattening x and flattening its twin agree after the erasure" follows (the erasure is idempotent) *)
+Theorem C20_scrub_idempotent : forall x, scrub (scrub x) = scrub x.
+Proof. exact scrub_idem. Qed.
+Theorem C20_flatten_commutes_up_to_erasure : forall eqv x, nodupf x = true ->
+  omap scrub (flatten eqv (scrub x)) = omap scrub (flatten eqv x).
+Proof. exact flatten_scrub_weak. Qed.
+(* the twin of a struct is the struct over the erased field list *)
+Theorem C20_scrub_struct : forall p k fs, scrub (IObj p k fs) = IObj p k (scrub_fields fs) /\
+  nodupf (IObj p k fs) = nodupf_fields fs.
+Proof. intros p k fs. split; [apply scrub_obj|apply nodupf_obj]. Qed.
+(* Flatten{Object,Actor,IntransitiveActivity,Activity}Properties as ANY table says they are *)
+Theorem C20_flatten_properties_commute_generic : forall tbl eqv k fs, nodupf_fields fs = true ->
+  flatten_fields_t tbl eqv k (scrub_fields fs) = omap scrub_fields (flatten_fields_t tbl eqv k fs).
+Proof. intros tbl eqv. exact (flatten_fields_t_scrub eqv tbl). Qed.
+(* ... as the source says they are on this run, and as Model/Flatten.v (the model the correspondence cases run
+   against the code, equal to the interpreter for every table with flatten_table_ok: C16_flatten_table_tie) *)
+Theorem C20_flatten_properties_commute : forall eqv k fs, nodupf_fields fs = true ->
+  flatten_fields_gen eqv k (scrub_fields fs) = omap scrub_fields (flatten_fields_gen eqv k fs) /\
+  flatten_fields eqv k (scrub_fields fs) = omap scrub_fields (flatten_fields eqv k fs).
+Proof. intros eqv k fs H. split; [apply flatten_fields_t_scrub|apply flatten_fields_scrub]; exact H. Qed.
+Theorem C20_flatten_properties_commute_table : forall tbl d, flatten_table_ok tbl d = true ->
+  forall eqv k fs, nodupf_fields fs = true ->
+  flatten_fields_t tbl eqv k (scrub_fields fs) = omap scrub_fields (flatten_fields eqv k fs).
+Proof.
+  intros tbl d Hok eqv k fs H. rewrite (flatten_table_tie tbl d Hok). apply flatten_fields_scrub. exact H.
+Qed.
+(* FlattenProperties (dispatch on the type name; pinned by the dispatch part of flatten_table_ok) *)
+Theorem C20_flatten_dispatch_commutes : forall eqv x, nodupf x = true ->
+  flatten_properties eqv (scrub x) = omap scrub (flatten_properties eqv x).
+Proof. exact flatten_properties_scrub. Qed.
+(* the hypothesis is needed (the erasure uncovers a second binding of a field that the accessors did not see), and
+   the literal form with the erasure that keeps properties is FALSE at the property level of the model: a property
+   assigned the untyped nil is an absent property there *)
+Theorem C20_flatten_commutes_needs_nodup :
+  exists x, nodupf x = false /\ flatten ideq (scrub x) <> omap scrub (flatten ideq x).
+Proof. exact scrub_needs_nodup. Qed.
+Theorem C20_flatten_properties_untyping_form_refuted :
+  exists fs, nodupf_fields fs = true /\
+    flatten_fields ideq FKActivity (nilify_fields fs) <> omap nilify_fields (flatten_fields ideq FKActivity fs) /\
+    flatten_fields ideq FKActivity (scrub_fields fs) = omap scrub_fields (flatten_fields ideq FKActivity fs).
+Proof. exact nilify_fields_form_false. Qed.
+
 (* ---- Recipients ---- *)
 (* the part before the de-duplication (the Block clause of Activity.Recipients) is total on every value; the
    de-duplication then ends in a value under C10's hypothesis on the ids; no entry of any list can make the scan
@@ -277,6 +345,21 @@ Proof.
   split; [do 2 eexists; vm_compute; reflexivity|].
   split; [eexists; vm_compute; reflexivity|].
   split; vm_compute; reflexivity.
+Qed.
+
+(* the same value: no field bound twice; its flattening and the flattening of its twin end in values, the second the
+   twin of the first, and they differ from the input (the actor, the object and an addressee become IRIs) *)
+Example C20_example_flatten_commutes :
+  nodupf ex20 = true /\ scrub ex20 <> ex20 /\
+  (exists y, flatten_properties_m ex20 = Ok y /\ y <> ex20 /\ has_typed_nil y = true /\
+             flatten_properties_m (scrub ex20) = Ok (scrub y) /\ has_typed_nil (scrub y) = false) /\
+  (exists y, flatten_m (IItems false (Some [ITNil KActor; ex20_actor; INil; ex20_actor])) = Ok y /\
+             flatten_m (scrub (IItems false (Some [ITNil KActor; ex20_actor; INil; ex20_actor]))) = Ok (scrub y) /\
+             y = IItems false (Some [ITNil KActor; IIri false a20; INil])).
+Proof.
+  split; [vm_compute; reflexivity|]. split; [vm_compute; discriminate|].
+  split; [eexists; split; [vm_compute; reflexivity|]; split; [vm_compute; discriminate|]; repeat split; vm_compute; reflexivity|].
+  eexists. split; [vm_compute; reflexivity|]. split; vm_compute; reflexivity.
 Qed.
 
 (* dropping the typed-nil inbox of the actor two levels down, then un-typing the target: the bytes stay *)
@@ -686,3 +769,82 @@ Example C20_append_nil_like_example :
   append_nil_like None INil = Some [INil] /\
   append_nil_like (Some [IIri false (B "-")]) (ITNil KActor) = Some [IIri false (B "-")].
 Proof. exact append_nil_like_examples. Qed.
+(* BLOCK TO APPEND at the end of coq/Props/C20.v.  Imports it needs (both lines are inside the block below, so the
+   block can be appended as it is):
+     From AP.Model Require Import PredTab PredGen NilMatrix PredList.
+     From AP.Proofs Require Import PredTabP PredNeP PredListP. *)
+(* ---- DerefItem, and NotEmpty on nil-like items and on lists, over the generated bodies (Gen/PredT.v, builder b57-i2;
+   Model/PredList.v, Proofs/PredListP.v) *)
+From AP.Model Require Import PredTab PredGen NilMatrix PredList.
+From AP.Proofs Require Import PredTabP PredNeP PredListP.
+
+(* the bodies of DerefItem and of (ptr ItemCollection).Collection on this run are the ones the theorems are about *)
+Theorem C20_deref_table_ok : deref_table_ok gen_pred_fns = true.
+Proof. vm_compute. reflexivity. Qed.
+Theorem C20_deref_first_bad : first_bad_deref gen_pred_fns = None.
+Proof. vm_compute. reflexivity. Qed.
+
+(* DerefItem of every item that is no IRI list, for every table satisfying the condition: the nil list for whatever
+   IsNil holds of, the list itself for an ItemCollection (through the pointer too), the one-member list otherwise;
+   the interpreter answers with a value - never a panic, never an error *)
+Theorem C20_deref_table_tie : forall tbl, deref_table_ok tbl = true -> forall i, is_iris i = false ->
+  as_item (sem_func tbl (B "DerefItem") [VI i]) = deref_spec i.
+Proof. exact deref_tie. Qed.
+(* (a) the untyped nil and the typed nil pointer of each of the 14 kinds: `if IsNil(it) { return nil }` *)
+Theorem C20_deref_nil_like : forall tbl, deref_table_ok tbl = true -> forall i, nil_like i = true ->
+  as_item (sem_func tbl (B "DerefItem") [VI i]) = Ok (IItems false None).
+Proof. exact deref_nil_like_tie. Qed.
+(* (b) a list, value or pointer form, WHATEVER its members (nil-like ones stay members): returned as it is *)
+Theorem C20_deref_list : forall tbl, deref_table_ok tbl = true -> forall p l,
+  as_item (sem_func tbl (B "DerefItem") [VI (IItems p (Some l))]) = Ok (IItems false (Some l)).
+Proof. exact deref_list_tie. Qed.
+Theorem C20_deref_never_panics : forall tbl, deref_table_ok tbl = true -> forall i, is_iris i = false ->
+  exists r, as_item (sem_func tbl (B "DerefItem") [VI i]) = Ok r.
+Proof. exact deref_never_panics. Qed.
+
+(* (c) NotEmpty is false of every nil-like item *)
+Theorem C20_not_empty_nil_like : forall tbl, pred_table_ok tbl = true -> forall i, nil_like i = true ->
+  sem_pred tbl (B "NotEmpty") i = Ok false.
+Proof. exact not_empty_nil_like_tie. Qed.
+
+(* (d) NotEmpty on an ItemCollection IsNil does not hold of (every list but the nil list value; the empty list and a
+   pointer to the nil list included), for ALL lists whose converted members carry typed property lists: the answer of
+   notEmptyObject on the LAST member the walk of OnObject gets to (nested lists opened, nil and Link members passed
+   over, the walk ended by the first member ToObject refuses), and TRUE when it gets to none.
+   The hand-written not_empty of Model/JsonDec.v answers true on every such list: it is wrong where the last converted
+   member is an empty object (ItemCollection{&Object{}}: the code says false); it is left as it is (the loader never
+   applies it to a list) and this specification stands next to it. *)
+Theorem C20_not_empty_list_table_tie : forall tbl, pred_table_ok tbl = true -> forall p lo,
+  is_nil (IItems p lo) = false -> views_typed (IItems p lo) = true ->
+  sem_pred tbl (B "NotEmpty") (IItems p lo) = Ok (ne_list_spec (IItems p lo)).
+Proof. exact not_empty_list_tie. Qed.
+(* a list all of whose members are nil-like is NOT empty for NotEmpty: true (the code as it is; the property text
+   speaks of the nil item and nil pointers themselves, for which (c) holds) *)
+Theorem C20_not_empty_nil_members : forall tbl, pred_table_ok tbl = true -> forall p l, forallb nil_like l = true ->
+  sem_pred tbl (B "NotEmpty") (IItems p (Some l)) = Ok true.
+Proof. exact not_empty_nil_members_tie. Qed.
+
+(* non-vacuity and the generated table on samples: every nil-like item; lists of nil-like members in both forms; a
+   mixed list; the list on which the hand-written not_empty is wrong; a nested list *)
+Example C20_pred_list_hypotheses :
+  forallb nil_like all_nil_like = true /\ length all_nil_like = 15%nat /\
+  map (fun i => as_item (sem_func gen_pred_fns (B "DerefItem") [VI i])) [INil; ITNil KActor; pg_note]
+    = [Ok (IItems false None); Ok (IItems false None); Ok (IItems false (Some [pg_note]))] /\
+  as_item (sem_func gen_pred_fns (B "DerefItem") [VI (IItems true (Some all_nil_like))]) = Ok (IItems false (Some all_nil_like)) /\
+  map not_empty_gen all_nil_like = map (fun _ => Ok false) all_nil_like /\
+  map not_empty_gen [IItems false (Some all_nil_like); IItems true (Some all_nil_like); IItems false (Some []); IItems true None]
+    = [Ok true; Ok true; Ok true; Ok true] /\
+  (let l := IItems false (Some [pg_note; ITNil KObject; pg_mention; IObj true KObject []; INil]) in
+   is_nil l = false /\ views_typed l = true /\ ne_list_spec l = false /\ not_empty_gen l = Ok false /\ not_empty_m l = true) /\
+  not_empty_gen (IItems false (Some [IObj true KObject []])) = Ok false /\
+  not_empty_gen (IItems false (Some [IItems false (Some [IObj true KObject []; pg_note])])) = Ok true.
+Proof. repeat split; vm_compute; reflexivity. Qed.
+
+(* what the new condition is for: a DerefItem that lost its IsNil guard fails it, the diagnosis names the function
+   and the statement, and the MEANING of the changed table hands back the typed nil pointer as a member *)
+Example C20_changed_deref_rejected :
+  deref_table_ok (drop_first_stmt (B "DerefItem") gen_pred_fns) = false /\
+  diag_where (first_bad_deref (drop_first_stmt (B "DerefItem") gen_pred_fns)) = Some (B "DerefItem", Some 0%nat) /\
+  as_item (sem_func (drop_first_stmt (B "DerefItem") gen_pred_fns) (B "DerefItem") [VI (ITNil KObject)])
+    = Ok (IItems false (Some [ITNil KObject])).
+Proof. repeat split; vm_compute; reflexivity. Qed.
